@@ -17,3 +17,43 @@ package mpx
 //@ func ghostBackoffMonotone
 //@   requires attempt >= 2 && attempt < 9223372036854775807
 //@   ensures[C19] result0 <= result1 && 25000000 <= result0 && result1 <= 1000000000
+
+//@ global statusChannelClosed: statusChannelClosed.Code == "closed"
+//@ global statusConnClosed: statusConnClosed.Code == "closed"
+//@ global statusClientClosed: statusClientClosed.Code == "closed"
+//@ global statusChannelEnded: statusChannelEnded.Code == "closed"
+
+// ---- flow control (C07)
+//
+// Ghost cells of the send-window atomic (see /verif/contracts/ext/sync.go): a Load returns an
+// arbitrary value (the peer's window updates may arrive at any time); nAdd / lastAdd record the
+// debits this call made.
+
+//@ func mpxErrorf
+//@   trusted
+//@   ensures result.Code != "ok"
+
+//@ func (*channelState).decrementSendWindow
+//@   safety[C07]
+//@   requires s != nil && ctx != nil && s.ctx != nil && s.ctx.CancelContext != nil && s.initWindow >= 0
+//@   modifies ghost.*
+//@   let n = len(data)
+//@   ensures[C07] ghost(nAdd, s.sendWindow) == old(ghost(nAdd, s.sendWindow)) || ghost(nAdd, s.sendWindow) == old(ghost(nAdd, s.sendWindow)) + 1
+//@   ensures[C07] ghost(nAdd, s.sendWindow) == old(ghost(nAdd, s.sendWindow)) + 1 ==>
+//@        n <= 2147483647 && ghost(lastAdd, s.sendWindow) == 0 - n && result.Code == "ok"
+//@        && (ghost(lastLoad, s.sendWindow) >= n || ghost(lastLoad, s.sendWindow) >= s.initWindow / 2)
+//@   loop 1 modifies ghost.*
+//@   loop 1 invariant ghost(nAdd, s.sendWindow) == old(ghost(nAdd, s.sendWindow)) && n <= 2147483647 && size == n
+//@   assert[C07] at select 1: window < size && window < s.initWindow / 2
+
+// promoted methods of the embedded async.CancelContext (compiler-generated wrappers): assumed
+//@ func (*context).Wait
+//@   trusted
+//@ func (*context).Status
+//@   trusted
+//@ func (*context).Cancel
+//@   trusted
+//@ func (*context).Free
+//@   trusted
+//@ func (*context).Done
+//@   trusted
